@@ -379,3 +379,97 @@ def run_mono(P, C):
     okm = bool(passed) and all(p == ("v0", "(v0==$7)", True) for p in passed)
     C.ob("SG-4", "fit", "mono-flag", okf and okm, A.where(),
          "fit passes (dimension i, i == monodim) to add_penalty_term, which forwards the flag unchanged to calc_penalty: %s %s" % (passed[:1], fw[0][2] if fw else None))
+
+
+def sg5(P, C):
+    """SG-5: the convergence exit of the block-pivoting loop is taken only at an exact minimiser over the free set with nothing pending."""
+    from . import gw
+    C.rule("SG-5", "nnls_normal_block3 declares convergence (the break of its outer loop) only when (a) every change set handed to modify_factor is "
+           "empty — both counters are tested zero in the exit condition — and (b) the current point is the exact solve over the free set: a flag "
+           "tested in the same condition that is set where the full solution is accepted (and before the loop, where x = 0 over the empty free "
+           "set) and cleared after every line search (walk_descents), whose result is only a point part way along the descent", floor=3)
+    N = P.one("nnls_normal_block3", file_endswith="nnls.c")
+    # change-set counters: variables passed by address to modify_factor at the positions of the H1/H2 counts (7 and 9)
+    mf = [i for i, cal in N.calls() if cal and cal["name"] == "modify_factor"]
+    if len(mf) != 1:
+        raise core.AnalysisBroken("SG-5: expected one modify_factor call in nnls_normal_block3, found %d" % len(mf))
+    def addr_var(a):
+        a = N.strip(a)
+        if N.k(a) == "UnaryOperator" and N.nodes[a]["op"] == "&":
+            return var_id(N, N.nodes[a]["ch"][0])
+        return None
+    args = N.args(mf[0])
+    counters = [addr_var(args[k]) for k in (7, 9)]
+    outer = [a for a in N.ancestors(mf[0]) if N.k(a) == "ForStmt"]
+    if not outer or None in counters:
+        raise core.AnalysisBroken("SG-5: outer iteration loop or change-set counters not identified")
+    outer = outer[-1]
+    # the convergence exit: a break directly in the outer loop's body (not inside the inner loops), under an if
+    exits = []
+    for b in N.walk(N.nodes[outer]["body"]):
+        if N.k(b) != "BreakStmt":
+            continue
+        anc = list(N.ancestors(b))
+        inner = [a for a in anc[:anc.index(outer)] if N.k(a) in ("ForStmt", "WhileStmt", "DoStmt", "SwitchStmt")]
+        if inner:
+            continue
+        ifs = [a for a in anc[:anc.index(outer)] if N.k(a) == "IfStmt"]
+        if ifs:
+            exits.append((b, ifs[0]))
+    if len(exits) != 1:
+        raise core.AnalysisBroken("SG-5: expected one convergence exit in the outer loop, found %d" % len(exits))
+    brk, iff = exits[0]
+    conn, leaves = core.cond_leaves(N, N.nodes[iff]["cond"])
+    zero_tested, flags = set(), []
+    for lf in leaves:
+        c = N.nodes[N.strip(lf)]
+        if c["k"] == "BinaryOperator" and c["op"] == "==" and N.nodes[N.strip(c["ch"][1])].get("cv") == 0 and var_id(N, c["ch"][0]) is not None:
+            zero_tested.add(var_id(N, c["ch"][0]))
+        elif c["k"] == "DeclRefExpr":
+            flags.append(c["decl"]["id"])
+    conj = conn in ("&&", "leaf")
+    missing = [N.var_name(v) for v in counters if v not in zero_tested]
+    C.ob("SG-5", "nnls_normal_block3", "nothing-pending", conj and not missing, N.loc(iff),
+         "the exit condition tests every change-set counter of modify_factor for zero" if conj and not missing else
+         "the convergence exit does not require %s == 0: constraints found by the last line search are dropped and x is returned although it is not "
+         "a minimum over the remaining free set" % ", ".join(missing))
+    okf = False
+    det = "the exit condition tests no exactness flag: after a line search x is only a point part way along the descent"
+    if conj and len(flags) == 1:
+        E = flags[0]
+        sets = [(i, N.nodes[N.strip(ts.assign_parts(N, i)[1])].get("cv")) for i in N.walk() if ts.assign_parts(N, i) and N.nodes[i].get("op") == "=" and
+                var_id(N, ts.assign_parts(N, i)[0]) == E]
+        trues = [i for i, v in sets if v == 1]
+        falses = [i for i, v in sets if v == 0]
+        other = [i for i, v in sets if v not in (0, 1)]
+        loop_nodes = set(N.walk(outer))
+        # where the full solution is accepted: the then-branch holding the guarded copy of the solve into the result (SG-2's store)
+        accept = None
+        for i in N.walk():
+            ap = ts.assign_parts(N, i)
+            if ap and dense_obj(N, ap[0]) and dense_obj(N, ap[1]):
+                g = [a for a in N.ancestors(i) if N.k(a) == "IfStmt"]
+                for a in g:
+                    cnd = N.strip(N.nodes[a]["cond"])
+                    if N.k(cnd) == "BinaryOperator" and N.nodes[cnd]["op"] == "==" and N.nodes[N.strip(N.nodes[cnd]["ch"][1])].get("cv") == 0 and \
+                            i in set(N.walk(N.nodes[a]["then"])):
+                        accept = N.nodes[a]["then"]
+        in_accept = [i for i in trues if i in loop_nodes and accept is not None and i in set(N.walk(accept))]
+        before_loop = [i for i in trues if i not in loop_nodes and N.nodes[i]["loc"] < N.nodes[outer]["loc"]]
+        stray = [i for i in trues if i not in in_accept and i not in before_loop]
+        wd = [i for i, cal in N.calls() if cal and cal["name"] == "walk_descents"]
+        cleared = []
+        for w in wd:
+            comp = next((a for a in N.ancestors(w) if N.k(a) == "CompoundStmt"), None)
+            kids = N.ch(comp) if comp is not None else []
+            top = next((x for x in [w] + list(N.ancestors(w)) if x in kids), None)
+            after = kids[kids.index(top) + 1:] if top in kids else []
+            cleared.append(any(x in falses or any(y in falses for y in N.walk(x)) for x in after[:2]))
+        okf = bool(in_accept) and bool(before_loop) and not stray and not other and bool(wd) and all(cleared)
+        det = "flag %s: set before the loop (%d) and where the full solution is accepted (%d), nowhere else (%d stray); cleared right after each of the %d line searches: %s" % (
+            N.var_name(E), len(before_loop), len(in_accept), len(stray) + len(other), len(wd), all(cleared))
+    C.ob("SG-5", "nnls_normal_block3", "exact-solve", okf, N.loc(iff), det)
+    # the exit is the only way out of the loop besides the iteration cap
+    rets = [i for i in N.walk(N.nodes[outer]["body"]) if N.k(i) in ("ReturnStmt", "GotoStmt")]
+    C.ob("SG-5", "nnls_normal_block3", "single-exit", not rets, N.loc(rets[0]) if rets else N.loc(outer),
+         "the outer loop is left only through the convergence exit or the iteration cap")
